@@ -200,6 +200,16 @@ def _bool_origin_fields(fn, local):
                 for f in place_fields(rv["pl"]):
                     out.append((f[0], f[1], flips % 2, site))
                 work.append((rv["pl"]["l"], flips))
+            elif k == "agg" and rv.get("variant") in ("Ok", "Some", "Continue") and len(rv["fields"]) == 1:
+                # a bool wrapped by a (since inlined) helper's `Ok(b)` and unwrapped again by `?`
+                o = rv["fields"][0]
+                p = op_place(o)
+                if p is not None:
+                    for f in place_fields(p):
+                        out.append((f[0], f[1], flips % 2, site))
+                    work.append((p["l"], flips))
+                elif "c" in o and o["c"].get("ty") == "bool":
+                    out.append(("constval", bool(o["c"].get("v")), flips % 2, site))
             elif k == "discr":
                 for f in place_fields(rv["pl"]):
                     out.append((f[0], f[1], flips % 2, site))
@@ -217,7 +227,7 @@ def _bool_origin_fields(fn, local):
     return out
 
 
-def gate_edges(fn, adt, field):
+def gate_edges(fn, adt, field, fx=None):
     """All CFG edges (u,v,value) where u switches on a bool derived from `adt.field`
     (or, with adt == "call", from the boolean result of a call to `field`):
     value is the truth value of the *field* on that edge (negations folded in)."""
@@ -230,6 +240,11 @@ def gate_edges(fn, adt, field):
             continue   # discriminant switches (match, `?`) are not boolean gates
         reads = switch_field_reads(fn, bi)
         hit = [r for r in reads if r[0] == adt and r[1] == field]
+        fx = fx or getattr(fn, "fx", None)
+        if not hit and adt == "call" and fx is not None:
+            # the bool comes from a combinator or workspace helper that (only) wraps the probe, e.g.
+            # `found(p.metadata())?.is_some_and(|m| m.is_dir())`
+            hit = [r for r in reads if r[0] == "call" and field in view_reach(fx, fn, [r[3].bb])]
         if not hit:
             continue
         # other inputs (calls, other fields) would make this a compound condition, which MIR never
@@ -245,17 +260,22 @@ def gate_edges(fn, adt, field):
             continue
         if flip:
             true_t, false_t = false_t, true_t
-        out.append((bi, true_t, True))
-        out.append((bi, false_t, False))
+        # a constant that may also reach the operand (another arm of an inlined helper): the edge taken on that
+        # constant says nothing about the field
+        consts = set(bool(r[1]) ^ bool(r[2]) ^ bool(flip) for r in reads if r[0] == "constval")
+        if True not in consts:
+            out.append((bi, true_t, True))
+        if False not in consts:
+            out.append((bi, false_t, False))
     return out
 
 
-def gated(fn, block, adt, field, want):
+def gated(fn, block, adt, field, want, fx=None):
     """Is `block` reachable only through an edge on which adt.field == want?"""
     cfg = cfg_of(fn)
     if block not in cfg.reachable():
         return True, "unreachable"
-    edges = [(u, v) for (u, v, val) in gate_edges(fn, adt, field) if val == want]
+    edges = [(u, v) for (u, v, val) in gate_edges(fn, adt, field, fx) if val == want]
     if not edges:
         return False, "no switch on %s.%s found" % (adt, field)
     r = cfg.reach([0], blocked_edges=edges)
